@@ -89,7 +89,7 @@ func runC19(c *Ctx) {
 			c.Ob("C19.O1", fn, "classifies "+s+" after nextChunk", c.P.Pos(fn.Pos()), k > 0,
 				map[bool]string{true: "", false: "no test of the nextChunk error against " + s + ": the sentinel would bypass read-ahead"}[k > 0])
 		}
-		c.Require("C19.O1", res, Pred("return", func(in ssa.Instruction) bool { _, ok := in.(*ssa.Return); return ok }),
+		c.Require("C19.O1", res, AnyReturn,
 			"invalid-chunk sentinels are routed through readAheadForCorruption", []string{"no-pending-sentinel"})
 		// the result returned after read-ahead is read-ahead's result
 		for _, in := range instrs(fn, CallTo("rec.(*Reader).readAheadForCorruption")) {
